@@ -1,2 +1,157 @@
-(* C03 - placeholder while the proofs are being written *)
-From MafVerif Require Import lib.Base.
+(* C03 - Validation stringency changes how problems are reported, never what is
+   parsed.  Property theorems only; proofs are in proofs/ReaderModes.v; the
+   contract itself is spec/SpecModes.v (stringency_contract):
+     - Silent logs nothing and never raises the format exception, nor does Lenient;
+     - Lenient returns what Silent returns and logs one warning per collected error;
+     - Strict raises MafFormat (tpe e0) (line e0) for the first collected error e0,
+       and returns what Silent returns (logging nothing) when there is none.
+   All theorems hold for every column semantics `sem`, every scheme registry,
+   every text. *)
+From MafVerif Require Import lib.Base lib.Str model.RecordOps model.Validation model.Header
+  model.RecordParse model.Reader model.WriterMode spec.SpecModes proofs.ReaderModes.
+
+(* header parsing: MafHeader.from_lines *)
+Theorem C03_header_parsing :
+  forall (C : Type) (registry : list (scheme C)) (lines : list str) (lg : logger),
+    stringency_contract lg herrs same_header
+      (header_from_lines registry lines (Some Silent) lg)
+      (header_from_lines registry lines (Some Lenient) lg)
+      (header_from_lines registry lines (Some Strict) lg).
+Proof. intros C registry lines lg. exact (header_modes registry lines lg). Qed.
+Print Assumptions C03_header_parsing.
+
+(* record parsing: MafRecord.from_line with any column names / scheme / line number *)
+Theorem C03_record_parsing :
+  forall (C W : Type) (sem : colsem C W) line names sch ln lg,
+    stringency_contract lg (@merrs C W) same_mrec
+      (from_line sem line names sch ln (Some Silent) lg)
+      (from_line sem line names sch ln (Some Lenient) lg)
+      (from_line sem line names sch ln (Some Strict) lg).
+Proof. intros. exact (from_line_modes sem line names sch ln lg). Qed.
+Print Assumptions C03_record_parsing.
+
+(* record validation: record.validate(validation_stringency=..) on any record;
+   the three results are equal (the record keeps its own stringency) *)
+Theorem C03_record_validation :
+  forall (C W : Type) (sem : colsem C W) (r : mrec C W) lg reset sch,
+    stringency_contract lg (@merrs C W) eq
+      (record_validate sem r (Some Silent) lg reset sch)
+      (record_validate sem r (Some Lenient) lg reset sch)
+      (record_validate sem r (Some Strict) lg reset sch).
+Proof. intros. exact (record_validate_modes sem r lg reset sch). Qed.
+Print Assumptions C03_record_validation.
+
+(* whole-file reading, opening: MafReader(lines, validation_stringency=.., scheme=..).
+   Lenient may warn more than once for a header error (from_lines and the
+   reader both process the header's errors) and adds the no-matching-scheme
+   warning; Strict may emit that warning but no error warning. *)
+Theorem C03_reader_open :
+  forall (C : Type) (registry : list (scheme (cls C))) (lines : list str) override,
+    exists rdS, reader_init registry lines (Some Silent) override = ([], Ok rdS) /\
+    (exists lgL rdL, reader_init registry lines (Some Lenient) override = (lgL, Ok rdL) /\
+                     same_reader rdS rdL /\ warns_all lgL (rd_errs rdS)) /\
+    match rd_errs rdS with
+    | [] => exists lgT rdT, reader_init registry lines (Some Strict) override = (lgT, Ok rdT) /\
+                            same_reader rdS rdT /\ no_ignored lgT
+    | e0 :: _ => exists lgT, reader_init registry lines (Some Strict) override = (lgT, Raise (format_of e0)) /\
+                             no_ignored lgT
+    end.
+Proof. intros C registry lines override. exact (reader_open_modes registry lines override). Qed.
+Print Assumptions C03_reader_open.
+
+(* whole-file reading, per prefix of the iteration: Strict yields the records
+   Silent yields up to the first error collected anywhere (opening or a data
+   line) and then raises that error; without errors it yields the same records
+   and ends the same way (end of input or the ordering error).
+   The sort-key functions are parameters; their contract (total up to the
+   documented ValueError) is property C08. *)
+Theorem C03_whole_file :
+  forall (C W K : Type) (sem : colsem C W) (registry : list (scheme (cls C)))
+         (key_of : sorder -> list str -> rec (payload C W) -> res K) (key_lt : K -> K -> bool),
+    (forall o cs r, match key_of o cs r with Ok _ => True | Raise e => e = ValueError end) ->
+    forall (lines : list str) override,
+    let rS := read_run sem registry key_of key_lt lines (Some Silent) override in
+    let rL := read_run sem registry key_of key_lt lines (Some Lenient) override in
+    let rT := read_run sem registry key_of key_lt lines (Some Strict) override in
+    run_log rS = [] /\ end_not_format (run_end rS) /\
+    (exists rdS, run_init rS = Ok rdS /\
+       ok_same_reader (run_init rS) (run_init rL) /\
+       Forall2 same_mrec (run_recs rS) (run_recs rL) /\ run_end rL = run_end rS /\
+       run_errs rL = run_errs rS /\ warns_all (run_log rL) (run_errs rS) /\
+       no_ignored (run_log rT) /\
+       match run_errs rS with
+       | [] => ok_same_reader (run_init rS) (run_init rT) /\
+               Forall2 same_mrec (run_recs rS) (run_recs rT) /\ run_end rT = run_end rS
+       | e0 :: _ =>
+           run_end rT = EndRaise (format_of e0) /\
+           match rd_errs rdS with
+           | [] => ok_same_reader (run_init rS) (run_init rT) /\
+                   Forall2 same_mrec (clean_prefix (@merrs C W) (run_recs rS)) (run_recs rT)
+           | _ :: _ => run_init rT = Raise (format_of e0) /\ run_recs rT = []
+           end
+       end).
+Proof.
+  intros C W K sem registry key_of key_lt Hkey lines override.
+  exact (read_run_modes sem registry key_of key_lt Hkey lines override).
+Qed.
+Print Assumptions C03_whole_file.
+
+(* writing, opening: MafWriter(handle, header, validation_stringency=..) *)
+Theorem C03_writer_open :
+  forall (C : Type) (registry : list (scheme (cls C))) (h : header),
+    stringency_contract LgWriter (fun w => herrs (w_header w)) same_writer
+      (writer_init registry h (Some Silent))
+      (writer_init registry h (Some Lenient))
+      (writer_init registry h (Some Strict)).
+Proof. intros C registry h. exact (writer_init_modes registry h). Qed.
+Print Assumptions C03_writer_open.
+
+(* writing, one `writer += record` from writers in the same state: Lenient does
+   what Silent does and warns once per collected error; Strict writes the same
+   line when the record has no error and otherwise raises its first error
+   without writing the line (the column-name line, if due, is written in all
+   modes) *)
+Theorem C03_writer_add :
+  forall (C W : Type) (sem : colsem C W) (wS wL wT : writer C) (r : mrec C W),
+    same_writer wS wL -> same_writer wS wT ->
+    w_mode wS = Silent -> w_mode wL = Lenient -> w_mode wT = Strict ->
+    let aS := writer_iadd sem wS r in
+    let aL := writer_iadd sem wL r in
+    let aT := writer_iadd sem wT r in
+    fst (fst aS) = [] /\ not_format (snd aS) /\ snd aL = snd aS /\ same_writer (snd (fst aS)) (snd (fst aL)) /\
+    w_scheme (snd (fst aT)) = w_scheme (snd (fst aS)) /\
+    forall r', snd aS = Ok r' ->
+      fst (fst aL) = map (LIgnored LgWriter) (merrs r') /\ fst (fst aT) = [] /\
+      match merrs r' with
+      | [] => snd aT = Ok r' /\ same_writer (snd (fst aS)) (snd (fst aT))
+      | e0 :: _ => snd aT = Raise (format_of e0) /\
+                   exists line, w_out (snd (fst aS)) = w_out (snd (fst aT)) ++ [line]
+      end.
+Proof. intros C W sem wS wL wT r. exact (writer_iadd_modes sem wS wL wT r). Qed.
+Print Assumptions C03_writer_add.
+
+(* ---------- non-vacuity: inputs on which errors are collected ---------- *)
+Definition t_sem : colsem unit unit :=
+  {| cs_build := fun _ _ => None; cs_invalid := fun _ _ => false; cs_str := fun _ _ => None;
+     cs_isinst := fun _ _ => true; cs_key_text := fun _ _ => None; cs_key_int := fun _ _ => None |}.
+Definition t_reg : list (scheme (cls unit)) := [].
+(* "#k" (no separator), "#version x": errors MISSING_SEPARATOR@1, UNSUPPORTED_VERSION, MISSING_ANNOTATION_SPEC *)
+Definition t_header : list str := [[35;107]%N; [35;118;101;114;115;105;111;110;32;120]%N].
+Example header_three_modes :
+  map (fun m => header_from_lines t_reg t_header (Some m) LgRoot) [Silent; Lenient; Strict] =
+  let errs := [mkerr 2 (Some 1); mkerr 7 None; mkerr 8 None] in
+  let recs := [(K_VERSION, {| hkey := K_VERSION; hval := HText [120%N] |})] in
+  [ ([], Ok {| hrecs := recs; herrs := errs; hmode := Silent |});
+    (map (LIgnored LgRoot) errs, Ok {| hrecs := recs; herrs := errs; hmode := Lenient |});
+    ([], Raise (MafFormat 2 (Some 1))) ].
+Proof. vm_compute. reflexivity. Qed.
+
+(* file: "a<TAB>b", "1<TAB>2", "3" (wrong count): Silent reads two records, the
+   second with an error on line 3; Strict yields the first and raises *)
+Definition t_file : list str := [[97;9;98]%N; [49;9;50]%N; [51]%N].
+Definition t_run (m : mode) := read_run t_sem t_reg (skey_of t_sem (fun _ => None)) skey_lt t_file (Some m) None.
+Example file_three_modes :
+  (length (run_recs (t_run Silent)), run_end (t_run Silent), skipn 2 (run_errs (t_run Silent)),
+   length (run_recs (t_run Strict)), run_end (t_run Strict), length (run_log (t_run Lenient))) =
+  (2%nat, EndStop, [mkerr 17 (Some 3)], 0%nat, EndRaise (MafFormat 6 None), 6%nat).
+Proof. vm_compute. reflexivity. Qed.
